@@ -34,6 +34,9 @@ Non-trivial: >= 2 packets and >= 2 filters with >= 1 packet selected and >= 1 no
 struct Filt {
     pattern: Option<E>,
     action: Option<Vec<S>>,
+    /// the action ends in `if NP == n { exit(code); }`: the run stops there with what was written so far
+    #[serde(default)]
+    exit_at: Option<(u32, u8)>,
 }
 
 #[derive(Clone, Debug, serde::Serialize, serde::Deserialize)]
@@ -236,13 +239,17 @@ fn gen_prog(c: &mut Choices, uniform: Option<u8>) -> Prog {
         // most programs get at least one action-less (selecting) filter
         let force_select = k + 1 == nf && selecting == 0 && g.c.chance(3, 4);
         let f = match if force_select { 0 } else { g.c.below(6) } {
-            0 | 1 => Filt { pattern: Some(g.boolean(2)), action: None },
-            2 => Filt { pattern: None, action: Some(g.action()) },
+            0 | 1 => Filt { pattern: Some(g.boolean(2)), action: None, exit_at: None },
+            2 => Filt { pattern: None, action: Some(g.action()), exit_at: None },
             _ => {
                 let p = g.boolean(2);
-                Filt { pattern: Some(p), action: Some(g.action()) }
+                Filt { pattern: Some(p), action: Some(g.action()), exit_at: None }
             }
         };
+        let mut f = f;
+        if f.action.is_some() && g.c.chance(1, 8) {
+            f.exit_at = Some((1 + g.c.below(8) as u32, [0u8, 0, 3, 7][g.c.below(4)]));
+        }
         g.in_filter = false;
         g.locals.clear();
         if f.action.is_none() {
@@ -288,6 +295,9 @@ fn render_prog(p: &Prog, silent: bool) -> String {
                 if let Some(a) = &f.action {
                     s.push_str("{\n");
                     s.push_str(&render(a));
+                    if let Some((np, code)) = f.exit_at {
+                        s.push_str(&format!("if NP == {} {{ exit({}); }}\n", np, code));
+                    }
                     s.push_str("}");
                 }
                 s.push('\n');
@@ -311,6 +321,8 @@ struct Expected {
     selected: usize,
     modified_then_selected: bool,
     unspecified: Option<String>,
+    /// the program called exit(code) inside a filter action
+    exit: Option<u8>,
 }
 
 fn layer_start(data: &[u8], depth: usize) -> usize {
@@ -345,7 +357,7 @@ fn set_cell(env: &Env, name: &str, v: RV) {
 fn model(p: &Prog, file: &PcapFile, uniform: Option<u8>) -> Expected {
     let mut it = Interp::new(2_000_000);
     let mut env: Env = None;
-    let mut x = Expected { out_records: vec![], text: String::new(), selected: 0, modified_then_selected: false, unspecified: None };
+    let mut x = Expected { out_records: vec![], text: String::new(), selected: 0, modified_then_selected: false, unspecified: None, exit: None };
     let mut pre: Vec<S> = SPECIALS.iter().map(|n| S::Let(n.to_string(), E::Null)).collect();
     for f in FVS {
         pre.push(S::Let(f.text.to_string(), E::Null));
@@ -455,6 +467,13 @@ fn model(p: &Prog, file: &PcapFile, uniform: Option<u8>) -> Expected {
                         }
                     }
                     load(&env, &hdr, &data);
+                    if let Some((np, code)) = f.exit_at {
+                        if np as usize == i + 1 {
+                            x.exit = Some(code);
+                            x.text = it.out.clone();
+                            return x;
+                        }
+                    }
                 }
             }
         }
@@ -494,6 +513,10 @@ fn gen_stream(c: &mut Choices) -> (PcapFile, Option<u8>) {
         let wirelen = if c.bool() { data.len() as u32 } else { data.len() as u32 + c.below(1400) as u32 };
         let (sec, usec) = if c.chance(1, 5) { (c.u32(), c.u32()) } else { (1_700_000_000 + c.below(1000) as u32, c.below(1_000_000) as u32) };
         f.recs.push(Rec { sec, usec, wirelen, data });
+    }
+    // a stream without records sometimes announces snap length 0 (the header is echoed as it is)
+    if f.recs.is_empty() && c.bool() {
+        f.hdr.snaplen = 0;
     }
     // every third stream: the snap length is exactly the longest captured length
     if !f.recs.is_empty() && c.chance(1, 3) {
@@ -538,6 +561,15 @@ fn check(ctx: &mut Ctx, p: &Prog, file: &PcapFile, uniform: Option<u8>) -> Vec<V
         if let Some(c) = r.crashed() {
             out.push(fail(&e2e::crash_signature(&c), format!("{}: {}\n{}", name, c, src_a)));
             return out;
+        }
+    }
+    if let Some(code) = x.exit {
+        ctx.class("exit-in-filter");
+        for (name, r) in [("without -s", &ra), ("with -s", &rb)] {
+            if r.code != Some(code as i32) {
+                out.push(fail("exit-in-filter:status", format!("{}: exit({}) was called in a filter action on a packet, the process ended with {:?}\n{}", name, code, r.code, src_a)));
+                return out;
+            }
         }
     }
     // ---- without -s: stdout is the pcap stream, prints are on stderr
